@@ -1192,6 +1192,15 @@ orc_compiler_global_reg_alloc (OrcCompiler *compiler)
         break;
       case ORC_VAR_TYPE_DEST:
         var->ptr_register = orc_compiler_allocate_register (compiler, FALSE);
+        /* a destination array may also be read by a resampling load */
+        if (var->need_offset_reg) {
+          var->ptr_offset = orc_compiler_allocate_register (compiler, FALSE);
+          if (var->ptr_offset == 0 || var->ptr_register == 0) {
+            orc_compiler_error (compiler,
+                "register overflow for gp register of a resampled source");
+            compiler->result = ORC_COMPILE_RESULT_UNKNOWN_COMPILE;
+          }
+        }
         break;
       case ORC_VAR_TYPE_ACCUMULATOR:
         var->first_use = -1;
